@@ -1,4 +1,5 @@
 import TarpcModel.Lemmas.C02
+import TarpcModel.Lemmas.ClientExpire
 /-!
 # C02 — every call terminates; no wakeup is lost (client side)
 
@@ -280,22 +281,50 @@ theorem C02_dispatch_registers_on_timers (q : DelayQ) (now : Nat)
     (q.pollExpired now).1.waker = true :=
   DelayQ.pollExpired_waker q now
 
-/-- The dispatch's `poll_expired` leaves the waker stored in its deadline queue when nothing expired. -/
-theorem C02_pollExpired_registers (s : St) (now : Nat) (h : (pollExpired s now).2 = false) :
+/-- One iteration of the dispatch's `poll_expired` that ends the loop without yielding anything — and without a
+panic of the re-arming `DelayQueue::insert` — came from a queue poll that returned `Pending` / `None`: the waker is
+stored. -/
+theorem expireWith_registers {s s' : St} {now : Nat} {r : DelayQ × DelayQ.PollRes} (hw : r.1.waker = true)
+    (h : expireWith s now r = .done s' false) (hp : s'.poisoned = false) : s'.timers.waker = true := by
+  unfold expireWith at h
+  split at h
+  · split at h
+    · split at h
+      · unfold rearm at h
+        generalize DelayQ.insert _ now _ _ = ri at h
+        obtain ⟨q', res, w⟩ := ri
+        cases res with
+        | panic =>
+          simp only [rearmWith, ExpStep.done.injEq, and_true] at h
+          subst h; simp [emit] at hp
+        | ok key => simp [rearmWith] at h
+      · simp at h
+    · simp at h
+  · simp only [ExpStep.done.injEq, and_true] at h
+    subst h; exact hw
+
+/-- The dispatch's `poll_expired` leaves the waker stored in its deadline queue when nothing expired (and the
+re-arming `DelayQueue::insert`, if any, did not panic). -/
+theorem C02_pollExpired_registers (s : St) (now : Nat) (h : (pollExpired s now).2 = false)
+    (hp : (pollExpired s now).1.poisoned = false) :
     (pollExpired s now).1.timers.waker = true := by
-  have hw := DelayQ.pollExpired_waker s.timers now
-  unfold pollExpired at h ⊢
-  revert h
-  cases hq : s.timers.pollExpired now with
-  | mk q r =>
-    rw [hq] at hw
-    cases r with
-    | expired e =>
-      intro h
-      simp only at h
-      split at h <;> simp at h
-    | pending => intro _; exact hw
-    | none => intro _; exact hw
+  suffices key : ∀ fuel s, remSum s < fuel → (pollExpiredLoop fuel s now).2 = false →
+      (pollExpiredLoop fuel s now).1.poisoned = false → (pollExpiredLoop fuel s now).1.timers.waker = true from
+    key _ s (by rw [expiredFuel_eq]; omega) h hp
+  intro fuel
+  induction fuel with
+  | zero => intro s hf; omega
+  | succ fuel ih =>
+    intro s hf h hp
+    cases hstep : expireStep s now with
+    | again s' =>
+      have hlt := expireWith_again (r := s.timers.pollExpired now) hstep
+      simp only [pollExpiredLoop, hstep] at h hp ⊢
+      exact ih s' (by omega) h hp
+    | done s' b =>
+      simp only [pollExpiredLoop, hstep] at h hp ⊢
+      subst h
+      exact expireWith_registers (DelayQ.pollExpired_waker s.timers now) hstep hp
 
 /-! ## First global facts -/
 
